@@ -50,6 +50,7 @@ TIES = {
             "obtain_latters": ("DswModel.Tie.GzArith", ["tie_obtain_latters"]),
             "obtain_formers": ("DswModel.Tie.GzArith", ["tie_obtain_formers"]),
             "get_complete_accessor": ("DswModel.Tie.GzArith", ["tie_get_complete_accessor"]),
+            "path_matching": ("DswModel.Tie.GzPath", ["tie_path_matching"]),
         },
         "extra_modules": [],
     },
@@ -58,6 +59,7 @@ TIES = {
             "set_vt": ("DswModel.Tie.SwVt", ["tie_set_vt"]),
             "encode": ("DswModel.Tie.SwEncode", ["tie_encode"]),
             "decode": ("DswModel.Tie.SwDecode", ["tie_decode"]),
+            "repair_dna": ("DswModel.Tie.SwRepair", ["tie_repair_dna"]),
         },
         "extra_modules": ["DswModel.Tie.SwCorollaries"],
     },
